@@ -182,8 +182,8 @@ let cmd_core line =
     (match parse_with big_fuel grammar_prog grammar_entry (text_of txt) with
      | ParseOk (t, errs, _) ->
        (match core_of_tree file links t with
-        | Ok l -> Printf.sprintf "{\"ast\":\"%s\",\"noncore\":null,\"perrs\":%s}" (file_sexp l) (perrs_json errs)
-        | Err e -> Printf.sprintf "{\"ast\":null,\"noncore\":\"%s\",\"perrs\":%s}" (json_escape (ocaml_string e)) (perrs_json errs)
+        | Ok l -> Printf.sprintf "{\"ast\":\"%s\",\"noncore\":null,\"perrs\":%s,\"complete\":%b}" (file_sexp l) (perrs_json errs) (tree_complete t)
+        | Err e -> Printf.sprintf "{\"ast\":null,\"noncore\":\"%s\",\"perrs\":%s,\"complete\":%b}" (json_escape (ocaml_string e)) (perrs_json errs) (tree_complete t)
         | Fuel -> "{\"ast\":null,\"noncore\":\"FUEL\",\"perrs\":[]}")
      | ParsePanic -> "{\"parse\":\"PANIC\"}"
      | ParseOOF -> "{\"parse\":\"OOF\"}")
